@@ -80,6 +80,7 @@ func WorkerMain(id, tier string, shard, n int, out string) {
 		os.Exit(2)
 	}
 	c := NewCtx(id, tier, seedFromEnv(), shard, n)
+	StartWatchdog(c, out)
 	ck.Run(c)
 	b, err := json.Marshal(c.Result())
 	if err != nil {
@@ -307,6 +308,9 @@ func CheckMain(id, tier string) int {
 	}
 	if len(m.Samples) == 0 {
 		cov["samples"] = []interface{}{"(no sample recorded)"}
+	}
+	if ck.Assumptions == nil {
+		ck.Assumptions = []string{"the enumerated alphabets and bounds stated in the rule (DESIGN.md sections 5, 6, 9)"}
 	}
 	ev := map[string]interface{}{
 		"property_id": id,
